@@ -508,6 +508,58 @@ def suite_sets(tier, seed):
     return cached_suite('sets', tier, seed, compute)
 
 
+def bigset_script(path, cms, big):
+    """C19 beyond the model's scope: sets of n elements, lookups of every (sampled) rank present / absent, keyed insertion
+    and erasure, insertion with the correct hint.  Python only writes labels; TLC judges the recording."""
+    def L(op, v=0, h=0, n=0, cm=0, it='-', vs=()):
+        return '%s 1 0 %d %d %d %d %s 0 %d%s\n' % (op, v, h, n, cm, it, len(vs), ''.join(' %d' % x for x in vs))
+    sizes = list(range(0, 41)) + list(big)
+    with open(path, 'w') as f:
+        for cm in cms:
+            desc = cm in (1, 3)
+            for n in sizes:
+                keys = [2 * i for i in range(n)]
+                f.write(L('ctorRange', cm=cm, it='ptr', vs=keys))
+                ranks = list(range(n + 1)) if n <= 40 else sorted(set([0, 1, n // 3, n // 2, n - 1, n] + list(range(0, n, max(1, n // 7)))))
+                for r in ranks:
+                    present = 2 * r if r < n else None
+                    absent = 2 * r - 1 if r > 0 else -1 if False else None
+                    for key in [k for k in (present, 2 * r + 1) if k is not None and k >= 0]:
+                        for op in ('find', 'contains', 'count', 'lowerBound', 'upperBound', 'equalRange', 'findK', 'lowerBoundK'):
+                            f.write(L(op, v=key))
+                    # insertion of the absent key 2r+1 with the correct hint, then restore
+                    key = 2 * r + 1 if r < n else 2 * n + 1
+                    if r <= n:
+                        # position of the first element not less than key in iteration order
+                        pos = (r + 1 if r < n else n) if not desc else (n - r - 1 if r < n else 0)
+                        pos = max(0, min(n, pos))
+                        f.write(L('insertHint', v=key, h=pos))
+                        f.write(L('eraseKey', v=key))
+                        f.write(L('insert', v=key))
+                        f.write(L('eraseKey', v=key))
+                f.write(L('destroy'))
+                f.write('reset\n')
+
+
+def suite_bigsets(tier, seed):
+    def compute(d):
+        F = 'flat'
+        cfgs = [SetCfg('big_fl_TC_amc', 'TC', 'amc', [(F, 'CmpT')]),
+                SetCfg('big_fl_small2_NTR', 'NTR', 'stdlike', [(F, 'CmpT', 0, None, 'small2')])]
+        if tier == 'thorough':
+            cfgs += [SetCfg('big_fl_stdvec_TR', 'TR', 'stdlike', [(F, 'CmpT', 0, None, 'std')]),
+                     SetCfg('big_ref_stdset', 'TC', 'stdlike', [('std', 'CmpT')])]
+        script = os.path.join(d, 'bigsets.script')
+        bigset_script(script, [0, 1] if tier == 'quick' else [0, 1, 2, 3], [64, 128] if tier == 'quick' else [64, 128, 257, 512])
+
+        def one(cfg):
+            r = run_set_script(d, cfg, script, 'big', batch=20)
+            r['kind'] = 'bigsets'
+            return r
+        return dict(results=pmap(one, cfgs, workers=4))
+    return cached_suite('bigsets', tier, seed, compute)
+
+
 SET_NO_FAULT = {'find', 'contains', 'count', 'lowerBound', 'upperBound', 'equalRange', 'findK', 'containsK', 'countK',
                 'lowerBoundK', 'upperBoundK', 'iterate', 'relocate', 'destroy', 'eq', 'ne', 'lt', 'le', 'gt', 'ge', 'dropNode'}
 
@@ -627,13 +679,13 @@ PROP_SUITES = {
     'C01': ['vec'], 'C02': ['vec', 'swap2', 'fault', 'sets', 'setfault'], 'C03': ['sets'], 'C04': ['sets'], 'C05': ['vec', 'sets'],
     'C06': ['vec', 'swap2', 'fault', 'sets', 'setfault'], 'C07': ['vec'], 'C08': ['limit'], 'C09': ['fault', 'setfault'],
     'C10': ['vec'], 'C11': ['sets'], 'C12': ['sets'], 'C13': ['swap2'], 'C14': ['vec', 'swap2', 'sets'], 'C18': ['vec', 'growth'],
-    'C19': ['sets'],
+    'C19': ['sets', 'bigsets'],
 }
 
 
 def run_property(prop, tier, seed):
     SUITE_FN.update(vec=suite_vec, swap2=suite_swap2, fault=suite_fault, limit=suite_limit, growth=suite_growth, sets=suite_sets,
-                    setfault=suite_setfault)
+                    setfault=suite_setfault, bigsets=suite_bigsets)
     if prop not in PROP_SUITES:
         raise InfraError('no check for property %s' % prop)
     results, wall, cached, extra = [], 0.0, True, {}
